@@ -48,6 +48,16 @@ def _native_close_frame(df, mol, tol):
     if n:
         ok = ok and np.allclose(df.select(["z", "y", "x"]).to_numpy(), mol.pos, atol=tol, rtol=0)
         ok = ok and np.allclose(df.select(["zvec", "yvec", "xvec"]).to_numpy(), mol.rotvec().astype(np.float32), atol=tol, rtol=0)
+    for c in mol.features.columns:
+        # features: exact values and dtypes for the binary format, CSV text within the tolerance
+        if not ok:
+            break
+        if tol == 0:
+            ok = df[c].dtype == mol.features[c].dtype and df[c].to_list() == mol.features[c].to_list()
+        elif df[c].dtype.is_numeric():
+            ok = bool(np.allclose(df[c].to_numpy(), mol.features[c].to_numpy(), atol=tol, rtol=0))
+        else:
+            ok = df[c].to_list() == mol.features[c].to_list()
     return bool(ok)
 
 
